@@ -42,7 +42,8 @@ typedef std::function<void(size_t, aiounicast *, CachinKursawePetzoldShoupRBC *,
 struct Deviation {
 	std::set<size_t> wrong, drop;     // unicast recipients
 	size_t pair_base = 0;             // index (per recipient) of the first message of the tampered pair
-	int answer = 0;                   // complaint answer: 0 correct, 1 incorrect (revealed share + 1), 2 none (silent from there on)
+	int answer = 0;                   // complaint answer: 0 correct, 1 incorrect (revealed share + 1), 2 none (silent from there on),
+	                                  // 3 ignored: the `who` of the answer is replaced by the end marker, the party goes on normally
 	int opening = 0;                  // opening of the own share: 0 correct, 1 mismatching (+1), 2 none (silent from there on)
 	bool bad_recon = false;           // the shares this party contributes to public reconstructions are broadcast as share + 1
 	bool active() const { return !wrong.empty() || !drop.empty() || answer || opening || bad_recon; }
